@@ -12,7 +12,7 @@ from vt.props.ipcstub import Fut, step, Prov, Loop, patch, unpatch
 
 PROPERTY = "C14"
 FUNCTIONS = ["klongpy.sys_fn_ipc.NetworkClient.%s" % m for m in
-             ("call", "_listen", "_run", "_cleanup_pending_responses", "is_open", "__init__")]
+             ("call", "_listen", "_run", "_cleanup_pending_responses", "is_open", "__init__")] + ["klongpy.sys_fn_ipc.execute_server_command"]
 ASSUMPTIONS = [
     "futures follow the asyncio.Future contract (single transition, set_exception requires an exception object)",
     "transport = stubs for stream_recv_msg/stream_send_msg returning an arbitrary (id, message) or raising an arbitrary transport fault class",
@@ -399,6 +399,10 @@ def obligations(tier):
         {"name": "L1 one _listen step from any pending table", "fn": "listen_step", "cfg": {}, "timeout": T_},
         {"name": "L2 _run ends with every pending call completed exactly once", "fn": "run_end", "cfg": {"idmax": 2 if q else 3}, "timeout": T_},
         {"name": "L3 call on a closed connection registers nothing and raises", "fn": "call_closed", "cfg": {}, "timeout": 60},
+        # server side: whatever a command does (incl. every failure class) its result future is completed exactly once, so the
+        # response - or the error - is sent and the remote caller does not wait forever (harness shared with C13)
+        {"name": "L4 server side: every command class completes its response future exactly once", "module": "vt.props.C13", "fn": "dispatch",
+         "cfg": {}, "timeout": 120},
     ]
     for f in (["incomplete", "other"] if q else FAULTS[1:]):
         for fc in range(3):
